@@ -23,7 +23,11 @@ var docKinds = []string{"mut", "mut", "mut", "del", "exp"}
 func genHistory(t *rapid.T, w hWeights) hScenario {
 	sc := hScenario{}
 	sc.NumVb = rapid.SampledFrom([]int{8, 16, 64}).Draw(t, "numvb")
-	nvb := rapid.IntRange(1, w.maxVb).Draw(t, "nvb")
+	mv := w.maxVb
+	if mv > sc.NumVb {
+		mv = sc.NumVb
+	}
+	nvb := rapid.IntRange(1, mv).Draw(t, "nvb")
 	sc.Lo = rapid.IntRange(0, sc.NumVb-nvb).Draw(t, "lo")
 	sc.Hi = sc.Lo + nvb - 1
 	var kinds []string
